@@ -292,7 +292,7 @@ def run(ctx):
         core.run_sharded(ctx, __name__, 'shard', 1, (1200, 40))
         ctx.exhaustive['small-grammar'] = False
     else:
-        core.run_sharded(ctx, __name__, 'shard', getattr(ctx, 'shards_override', None) or 16, (4000, 1))
+        core.run_sharded(ctx, __name__, 'shard', getattr(ctx, 'shards_override', None) or 16, (10000, 1))
         ctx.exhaustive['small-grammar'] = True
 
 
